@@ -34,7 +34,32 @@ Definition spec_ok (c : case) : bool :=
 Definition opt_eqb (a b : option (list Z)) : bool :=
   match a, b with Some x, Some y => zlist_eqb x y | None, None => true | _, _ => false end.
 
+(* The hypotheses of the theorems C04_program_write / C04_selection_meets_spec, CHECKED on this case's file:
+   the extractor the model builds from the raw bytes is well-formed (Inv), wide enough, and its abstraction is
+   the one the generator's records define (gview).  With them the theorems cover EVERY program on this file.
+   Not checked for CRLF delimited files: there the extractor of the code at HEAD is not well-formed (a record
+   stops before its '\n' — finding C04-crlf-delimited-selection-drops-newline), and not for GTF (read eagerly). *)
+Definition is_lf (r : grec) : bool := match g_eol r with [] => true | [10] => true | _ => false end.
+Definition hyp_ok (c : case) : bool :=
+  let f := k_fmt c in
+  match f with
+  | FGtf => true
+  | _ =>
+      match f, forallb is_lf (k_recs c) with
+      | FDelim _, false => true
+      | FVcf _, false => true
+      | _, _ =>
+          match read current f (k_file c) with
+          | Some (SLazy x _) =>
+              inv_b x && width_b f (view x) && list_eqb arow_eqb (view x) (map (gview f) (k_recs c))
+          | Some (SEager _) => false
+          | None => true                       (* unreadable (SAM with CRLF): model_out is None as well *)
+          end
+      end
+  end.
+
 Definition model_ok (c : case) : bool :=
+  hyp_ok c &&
   match strip_header c with
   | None => false
   | Some body => opt_eqb body (model_out (k_fmt c) (k_file c) (k_prog c))
